@@ -10,6 +10,7 @@ import (
 	"io"
 	"runtime"
 	"strconv"
+	"strings"
 	"sync"
 	"time"
 
@@ -150,7 +151,16 @@ func (m *Manager) ReturnTable(name string) (bool, error) {
 	return true, nil
 }
 
+// validTableName table names are path segments of the catalogue keys, a name containing a separator
+// would alias internal records (the ID sequence "sys/idseq", the lease of another table "<name>/lease").
+func validTableName(name string) bool {
+	return name != "" && !strings.Contains(name, "/")
+}
+
 func (m *Manager) CreateTable(name string) (Table, error) {
+	if !validTableName(name) {
+		return Table{}, serrors.ErrInvalidTableName
+	}
 	m.mtx.Lock()
 	defer m.mtx.Unlock()
 	created, err := m.createTable(name)
@@ -189,6 +199,9 @@ func (m *Manager) createTable(name string) (Table, error) {
 }
 
 func (m *Manager) DeleteTable(name string) error {
+	if !validTableName(name) {
+		return serrors.ErrInvalidTableName
+	}
 	m.mtx.Lock()
 	defer m.mtx.Unlock()
 	storeName := storedTableName(name)
@@ -518,6 +531,9 @@ func (m *Manager) stopTable(clusterID uint64) error {
 }
 
 func (m *Manager) Restore(name string, reader io.Reader) error {
+	if !validTableName(name) {
+		return serrors.ErrInvalidTableName
+	}
 	tbl, version, err := m.getTableVersion(name)
 	if err != nil && !errors.Is(err, serrors.ErrTableNotFound) {
 		return err
